@@ -211,9 +211,60 @@ def targets(ctx):
 
     from . import _grammar as _g
 
+    # ---- fixed: one message per pooled field name; key naming in both directions against the reference
+    def matrix_cases():
+        yield {"matrix": "single"}
+
+    def matrix_ev(case):
+        from .. import build, gen
+        from ..schema import FIELD_NAMES
+        from .c19 import classes as name_classes
+
+        names = sorted({n for pool in FIELD_NAMES.values() for n in pool} | {"sha256sum", "ipv4address", "x2y", "none", "HTTPStatusCode", "iD", "URL2go"})
+        files = {"jsonnames.proto": 'syntax = "proto3";\npackage jsonnames;\n' + "\n".join(f"message N{i} {{ int32 {n} = 1; }}" for i, n in enumerate(names)) + "\n"}
+        comp = gen.compile_files(files, tag="c05m_")
+        try:
+            if comp.rc != 0:
+                return Eval(discard="plugin failed (reported by C03)")
+            gen.import_all(comp)
+            if comp.import_errors:
+                return Eval(discard="generated package not importable (reported by C03)")
+            mod = comp.modules["jsonnames"]
+            gref = build.Ref(comp.fds)
+            fails = []
+            for i, n in enumerate(names):
+                cls = getattr(mod, f"N{i}")
+                R = gref.cls(f"jsonnames.N{i}")
+                where = "+".join(name_classes(n))
+                import dataclasses as _dc
+
+                try:
+                    pyname = [f.name for f in _dc.fields(cls)][0]
+                    text = guard("to_json", cls(**{pyname: 7}).to_json)
+                    try:
+                        r = json_format.Parse(text, R())
+                        if getattr(r, n) != 7:
+                            fails.append(Failure("bp_json_to_ref", f"matrix|bp_json_to_ref|name:{where}", f"field {n!r}: json={text}"))
+                    except json_format.ParseError as e:
+                        fails.append(Failure("bp_json_rejected_by_ref", f"matrix|bp_json_rejected_by_ref|name:{where}", f"field {n!r}: {e}; json={text}"))
+                    for pn in (False, True):
+                        ref = R()
+                        setattr(ref, n, 7)
+                        rtext = json_format.MessageToJson(ref, preserving_proto_field_name=pn)
+                        m2 = guard("from_json_ref", cls().from_json, rtext)
+                        if getattr(m2, pyname) != 7:
+                            fails.append(Failure("ref_json_to_bp", f"matrix|ref_json_to_bp{'_proto_names' if pn else ''}|name:{where}", f"field {n!r}: betterproto reads {m2!r} from {rtext}"))
+                except Guarded as gd:
+                    fails.append(Failure("raises", f"matrix|raises_{gd.where}_{type(gd.exc).__name__}|name:{where}", f"field {n!r}: {gd}"))
+            return Eval(fails, weight=len(names), nontrivial_count=sum(1 for n in names if name_classes(n) != ["plain"]), labels=["name_matrix"])
+        finally:
+            comp.cleanup()
+
     from . import _seq
 
     return [
+        Target("name_matrix_json_keys", matrix_ev, cases=matrix_cases, exhaustive=True, shard_cases=False,
+               rule="one message per pooled field name (keywords, builtins, upper-case runs, digits, underscores): key naming in both directions against json_format"),
         Target("corpus_values_json_vs_reference", ev, strategy=strat(), quick=600, thorough=7000, time_quick=70),
         Target("grammar_schema_json_names", grammar_ev, strategy=_g.strategy(), quick=3, thorough=40, time_quick=60, time_thorough=900, pin_budget=10, pin_sigs=1),
         _seq.target("C05"),
